@@ -479,6 +479,8 @@ func (w *World) Exec(st *Step) (res StepResult) {
 			w.gen.be.Cache.Snapshot.Purge()
 			w.fault("snapshot_cache_purged")
 		}
+	case "cs":
+		return w.execCS(st)
 	case "c19":
 		return w.execC19(st)
 	case "raw":
